@@ -64,3 +64,21 @@ impl Clone for Signature {
 }
 impl Copy for Signature {}
 } // mod ed25519_dalek
+pub mod crc32fast {
+use vstd::prelude::*;
+/// CRC-32 (IEEE) of a byte string: uninterpreted
+pub uninterp spec fn spec_crc(s: Seq<u8>) -> u32;
+#[verifier::external_body]
+pub fn hash(buf: &[u8]) -> (r: u32) ensures r == spec_crc(buf@) { unimplemented!() }
+#[verifier::external_body]
+pub struct Hasher { _p: () }
+impl Hasher {
+    pub uninterp spec fn fed(&self) -> Seq<u8>;
+    #[verifier::external_body]
+    pub fn new() -> (r: Hasher) ensures r.fed() == Seq::<u8>::empty() { unimplemented!() }
+    #[verifier::external_body]
+    pub fn update(&mut self, buf: &[u8]) ensures final(self).fed() == old(self).fed() + buf@ { unimplemented!() }
+    #[verifier::external_body]
+    pub fn finalize(self) -> (r: u32) ensures r == spec_crc(self.fed()) { unimplemented!() }
+}
+} // mod crc32fast
